@@ -33,6 +33,12 @@ SelOf(e) ==
     [] e.form = "start" -> StartForm(e.base, e.s, Rng(e.extra))
     [] e.form = "end"   -> EndForm(e.base, e.s, Rng(e.extra))
     [] e.form = "auto"  -> AutoForm(e.base, Rng(e.exc))
+    [] e.form \in {"start_over_names", "end_over_names"} ->
+          (* the range form reads what the explicit names left: it only looks at parameters that are still regular *)
+          LET adv == Prepare(e.base, Rng(e.po), Rng(e.kwo)) IN
+          IF adv.tag # "ok" THEN adv
+          ELSE LET outer == IF e.form = "start_over_names" THEN StartForm(adv.adv, e.s, {}) ELSE EndForm(adv.adv, e.s, {}) IN
+               IF outer.tag # "ok" THEN outer ELSE [tag |-> "ok", po |-> outer.po \cup Rng(e.po), kwo |-> outer.kwo \cup Rng(e.kwo)]
     [] e.form \in {"names_over_start", "names_over_end"} ->
           LET inner == IF e.form = "names_over_start" THEN StartForm(e.base, e.s, {}) ELSE EndForm(e.base, e.s, {}) IN
           IF inner.tag # "ok" THEN inner ELSE [tag |-> "ok", po |-> inner.po \cup Rng(e.po), kwo |-> inner.kwo \cup Rng(e.kwo)]
@@ -41,6 +47,7 @@ StepsAdmissible(e, sel) ==
   /\ Admissible(e.base, sel.po, sel.kwo)
   /\ (e.form = "names" /\ e.order = "po_first")  => Admissible(e.base, sel.po, {})
   /\ (e.form = "names" /\ e.order = "kwo_first") => Admissible(e.base, {}, sel.kwo)
+  /\ (e.form \in {"start_over_names", "end_over_names"}) => Admissible(e.base, Rng(e.po), Rng(e.kwo))
   /\ (e.form = "names_over_start") => (Admissible(e.base, {}, StartForm(e.base, e.s, {}).kwo) /\ Admissible(e.base, Rng(e.po), StartForm(e.base, e.s, {}).kwo))
   /\ (e.form = "names_over_end") => Admissible(e.base, EndForm(e.base, e.s, {}).po, {})
 
